@@ -34,7 +34,7 @@ struct Ep
 // A/B differ only in the stream id, A/C only in the low byte of the device id, A/D only in its HIGH byte
 // (a key that drops or folds any part of the endpoint makes two of them collide)
 constexpr int NEP = 4;
-static const Ep kEp[NEP] = {{1, 1, 'A'}, {1, 2, 'B'}, {2, 1, 'C'}, {0x0101, 1, 'D'}};
+static const Ep kEp[NEP] = {{1, 1, 'A'}, {1, 0x81, 'B'}, {2, 1, 'C'}, {0x0101, 1, 'D'}};   // B's stream id has the sign bit of a byte set
 
 static Bytes pattern(size_t len, unsigned tag)
 {
@@ -1123,7 +1123,7 @@ int main(int argc, char** argv)
     const bool thorough = opt.tier == "thorough";
     run.assumptions = {
         "segment payload sizes are drawn from {0,1,5,6} plus two variants that reassemble to 65535 and 65519/65520 bytes, trailing bytes from {0,3,20}, start counters from {0,1,254,32766,32767,65534,65535} (byte carry, sign boundary and wrap of the 16-bit counter)",
-        "four endpoints (1,1) (1,2) (2,1) (0x0101,1): pairs differ only in the stream id, only in the low byte and only in the high byte of the device id",
+        "four endpoints (1,1) (1,0x81) (2,1) (0x0101,1): pairs differ only in the stream id, only in the low byte and only in the high byte of the device id",
         "VERIF_SEED is ignored: nothing is sampled",
     };
 
